@@ -237,18 +237,21 @@ class Worker:
         from aioquic import _buffer
         self.src = "direct"
         v = j["capacity"]
+        nd = j.get("data")                  # also initial contents of nd bytes (both keywords in one call)
         z = enc_int(0)
         self.emit({"ev": "b", "job": self.job, "ep": "Buffer.new", "m": "new", "cap": 0, "pos": 0, "lead": 0,
-                   "a": enc_int(v), "b": z, "n": 0, "src": self.src, "argv": [str(v)]})
+                   "a": enc_int(v), "b": z, "n": nd or 0, "src": self.src, "argv": [str(v)] + ([str(nd)] if nd is not None else [])})
         kind, pos2, cap2, usable = "ok", -1, -1, 1
         try:
-            buf = _buffer.Buffer(capacity=v)
+            buf = _buffer.Buffer(capacity=v) if nd is None else _buffer.Buffer(capacity=v, data=fill(nd, 9))
         except BaseException as e:          # noqa
             kind = type(e).__name__
         else:
             pos2, cap2 = buf.tell(), buf.capacity
             try:
-                if cap2 != 0:
+                if nd:
+                    usable = 1 if cap2 >= nd and buf.data_slice(0, nd) == fill(nd, 9) else 0
+                elif cap2 != 0:
                     buf.push_uint8(7)
                     buf.seek(0)
                     usable = 1 if buf.pull_uint8() == 7 else 0
